@@ -676,6 +676,10 @@ def main():
     entries = sys.argv[2].split(',')
     cuts = set(); redirect = {}; metaf = None
     if '--cut' in sys.argv: cuts = set(x for x in sys.argv[sys.argv.index('--cut') + 1].split(',') if x)
+    fnptr_rx = None
+    if '--fnptr-defs' in sys.argv:
+        v = sys.argv[sys.argv.index('--fnptr-defs') + 1]
+        if v: fnptr_rx = re.compile(v)
     if '--redirect' in sys.argv:
         for kv in sys.argv[sys.argv.index('--redirect') + 1].split(','):
             if kv: a, b = kv.split('='); redirect[a] = b
@@ -727,6 +731,8 @@ def main():
         init = cinit(fe, p, t)
         for d in list(E.need):
             if d in gl: emit_global(d)
+            elif d not in done and fnptr_rx is not None and fnptr_rx.search(d):
+                work.append(d)                   # --fnptr-defs: translate it (e.g. shared_ptr control-block virtuals)
             elif d not in done: done[d] = None   # a function named only by an initializer (vtable slot): never called
                                                  # directly; it gets an 'unmodelled' stub whose body is assert(false), so an
                                                  # indirect call that does reach it is reported instead of silently skipped
